@@ -73,7 +73,30 @@ class FakeTable:
         return ['hdr:' + p for p in agg.expr.lit.value]
 
 
+class InjectedFault(Exception):
+    """an engine call fails (I/O error, preempted worker, ...)"""
+
+
+class InjectedInterrupt(KeyboardInterrupt):
+    """Ctrl-C while an engine call is running"""
+
+
+class HarnessAbort(BaseException):
+    """the run keeps issuing engine calls without ever finishing"""
+
+
 class Recorder:
+    ops = 0            # engine calls of the current run() attempt
+    fault_at = 0       # the fault_at-th engine call of the attempt raises (0 = never)
+    fault_kind = 'exc'
+
+    def tick(self):
+        self.ops += 1
+        if self.ops > 5000:
+            raise HarnessAbort()
+        if self.ops == self.fault_at:
+            raise (InjectedInterrupt() if self.fault_kind == 'int' else InjectedFault(f'engine call {self.ops} failed'))
+
     def __init__(self):
         self.datasets = {}     # path -> (leaves, n)
         self.writes = {}       # path -> number of writes
@@ -112,6 +135,7 @@ class FakeVDS:
         return base + '/variant_data'
 
     def write(self, path, **kw):
+        FakeVDS.rec.tick()
         record_write(FakeVDS.rec, path, self)
 
 
@@ -163,9 +187,6 @@ class LenList(list):
         return self.n
 
 
-SETTER_FINDING = 'gvcf_batch_size setter with more than 150000 import intervals sets the batch size to 0'
-
-
 class FakeType:
     def __init__(self, *a, **k):
         pass
@@ -209,7 +230,10 @@ class FakeRG:
 def make_fake_hl(get_rec, fs, get_rg, real_hl):
     hl = types.SimpleNamespace()
     hl.literal = lambda x: Lit(x)
-    hl.eval = lambda x: x
+    def _eval(x):
+        get_rec().tick()
+        return x
+    hl.eval = _eval
     hl.get_vcf_header_info = lambda x: x if isinstance(x, LitIndex) else ('header', x)
     hl.rbind = lambda x, f: f(x)
     hl.enumerate = lambda lit: lit
@@ -240,6 +264,7 @@ def make_fake_hl(get_rec, fs, get_rg, real_hl):
 
     def read_vds(path, **kw):
         rec = get_rec()
+        rec.tick()
         if path not in rec.datasets:
             rec.errors.append(f'read of {path}, which was never written')
             return FakeVDS(FakeTable(), FakeTable(), leaves=[], n=0)
@@ -253,6 +278,7 @@ def make_fake_hl(get_rec, fs, get_rg, real_hl):
         if len(vdss) != len(paths):
             rec.errors.append('write_variant_datasets: lengths differ')
         for v, p in zip(vdss, paths):
+            rec.tick()      # the datasets are written one after the other: a failure may leave some of them behind
             record_write(rec, p, v)
 
     hl.vds = types.SimpleNamespace(read_vds=read_vds, write_variant_datasets=write_variant_datasets,
@@ -282,7 +308,8 @@ class C38(Prop):
                   'multiset of inputs reachable from the plan and the sample total, strictly decreases 2*#gvcfs + #datasets, and after that many '
                   'steps the plan is finished with exactly one dataset written, built from exactly the given inputs (none written when there are '
                   'none); load(save(s)) keeps gvcfs/names/branch factor/batch size and the datasets as a multiset, and is the identity on the bin '
-                  'structure when every dataset is in its natural bin; the import intervals come back from load(save(.)) unchanged, flags included '
+                  'structure when every dataset is in its natural bin; every GVCF step consumes >= 1 input under the constructor guard and the public '
+                  'gvcf_batch_size setter keeps that guard for every interval count (gvcf_step_consumes, setter_keeps_guard); the import intervals come back from load(save(.)) unchanged, flags included '
                   '(save_load_intervals), so the resumed partitioning still covers every base exactly once (resumed_partition_covers).')
     level_note = ('save_load_id holds only as save_load_id_partial: _step_vdses bumps new_bin to original_bin+1 and the bump is not saved, so a '
                   'resumed run may group later merges differently (witness in Props/C38.lean); the exactly-once property is proved for every resume '
@@ -291,7 +318,8 @@ class C38(Prop):
                   'code by the correspondence cases only.')
     budget = {'quick': 700, 'thorough': 12000}
     search_budget = {'quick': 2500, 'thorough': 25000}
-    rule = ('two case kinds. part: (reference name, 25 contig lengths, interval size) through the real calculate_even_genome_partitioning; '
+    rule = ('three case kinds. crash: the real run() loop with failures inside steps - in attempt a the k_a-th engine call (header read, dataset read, '
+            'merge, each dataset write) raises an exception or Ctrl-C, the combiner is reloaded from its save_path and run() is called again; judged on the final dataset of the resumed run. part: (reference name, 25 contig lengths, interval size) through the real calculate_even_genome_partitioning; '
             'lengths are boundary-directed (multiples of size, +-1, 1, size, size+1). plan: (gvcf count 0-60, sample names or not, input VDS '
             'sample counts incl. exact powers of the branch factor, branch factor 2-12, gvcf batch size 1-20, optional import intervals = the real '
             'partitioning of a small 25-contig genome carried through every save->load, optionally reported at a length around the merge-task '
@@ -325,8 +353,23 @@ class C38(Prop):
         vdc.make_reference_stream = lambda s, *a: s
         vdc.make_variant_stream = lambda s, *a: s
         vdc.calculate_new_intervals = lambda ht, n, path: ([], None)
-        vdc.combine_variant_datasets = lambda vdss: FakeVDS(FakeTable(), FakeTable(), leaves=[x for v in vdss for x in v.leaves],
-                                                            n=sum(v.n for v in vdss))
+        def combine_vdses(vdss):
+            self.rec.tick()
+            return FakeVDS(FakeTable(), FakeTable(), leaves=[x for v in vdss for x in v.leaves], n=sum(v.n for v in vdss))
+        vdc.combine_variant_datasets = combine_vdses
+        # instrumentation: observe every completed step() of a run() loop (the real method is called unchanged)
+        real_step = vdc.VariantDatasetCombiner.step
+        prop = self
+        self.trace_active = False
+
+        def observed_step(comb):
+            was_finished = comb.finished
+            real_step(comb)
+            if prop.trace_active and not was_finished:
+                prop.trace.append('step')
+                prop.trace_lines.append(prop._dump(comb))
+        vdc.VariantDatasetCombiner.step = observed_step
+        self.crash_cache = {}
         vdc.info = lambda *a, **k: None
         vdc.warning = lambda *a, **k: None
         self.route = ('whole-package import of hail under harness/loader.py; combine.py uses the real hl.Locus/hl.Interval/ReferenceGenome(_builtin=True); '
@@ -399,17 +442,29 @@ class C38(Prop):
                 # the NUMBER of import intervals around the merge-task limit (150000 // n clamps of the batch-size setter); a stand-in list
                 # of that length around the few real intervals
                 case['nintervals'] = rng.choice([147075, 150000, 150001, 75000, 75001, 50001, 300000, 100000, 1000])
-        if rng.random() < (0.3 if case.get('nintervals', 0) <= 150000 else 0.1):
+        if rng.random() < 0.3:
             # combiner.gvcf_batch_size = v between steps (the public setter)
             case['setter'] = [[rng.randrange(max(1, min(k, 6))), rng.choice([1, 2, 3, batch if batch >= 1 else 1, 20, 150000])]
                               for _ in range(rng.choice([1, 1, 2]))]
-            if case.get('nintervals', 0) > 150000:
-                case['names'] = 1
         return case
+
+    def _crash_case(self, rng):
+        """a run() loop with failures inside steps: in attempt a the faults[a]-th engine call (read / merge / write / header read) raises,
+        the combiner is reloaded from its save_path and run() is called again; the last attempt is fault-free"""
+        bf = rng.randint(2, 6)
+        batch = rng.randint(1, 4)
+        g = rng.choice([0, 1, 2, bf, bf + 1, bf * batch + 1, rng.randint(0, 25)])
+        nv = rng.choice([0, 1, 2, 3, bf, bf + 1, rng.randint(0, 9)])
+        if g + nv == 0:
+            g = 1
+        vds = [rng.choice([1, 2, bf, bf * bf, rng.randint(1, 60)]) for _ in range(nv)]
+        faults = [rng.choice([1, 1, 2, 2, 3, 4, 5, 6, 8, rng.randint(1, 30)]) for _ in range(rng.choice([1, 1, 2, 3, 4]))]
+        return {'kind': 'crash', 'bf': bf, 'batch': batch, 'g': g, 'names': rng.randint(0, 1), 'vds': vds, 'faults': faults,
+                'fault_kind': rng.choice(['exc', 'exc', 'int'])}
 
     def cases(self, rng, n, tier):
         for i in range(n):
-            yield self._part_case(rng) if i % 3 == 0 else self._plan_case(rng)
+            yield self._part_case(rng) if i % 3 == 0 else self._crash_case(rng) if i % 3 == 1 and i % 2 == 0 else self._plan_case(rng)
 
     # ------------------------------------------------------------------------------------------
     @staticmethod
@@ -428,6 +483,13 @@ class C38(Prop):
     def model_lines(self, c):
         if c['kind'] == 'part':
             return [f'part {L} {c["size"]}' for L in c['lengths']]
+        if c['kind'] == 'crash':
+            r = self._run_crash(c)
+            vs = []
+            for i, n in enumerate(c['vds']):
+                vs += [1000 + i, n]
+            return ['reset', ' '.join(map(str, ['init', c['bf'], c['batch'], c['names'], 'G'] + list(range(c['g'])) + ['V'] + vs + ['F']
+                                          + self._anomalies(c)))] + r['trace']
         g = c['g']
         vs = []
         for i, n in enumerate(c['vds']):
@@ -646,9 +708,92 @@ class C38(Prop):
             return f'intervals out of contig order from index {pos}: {ivs[pos]}'
         return None
 
+    def _run_crash(self, c):
+        key = json.dumps(c, sort_keys=True)
+        if key in self.crash_cache:
+            return self.crash_cache[key]
+        vdc = self.vdc
+        self.rec = rec = Recorder()
+        FakeVDS.rec = rec
+        FakeVDS.output_path = '/out/final.vds'
+        self.fs.files.clear()
+        g = c['g']
+        names = [f'n{i}' for i in range(g)] if c['names'] else None
+        mds = []
+        for i, n in enumerate(c['vds']):
+            p = f'v{1000 + i}'
+            rec.datasets[p] = ([p], n)
+            rec.reads[p] = 0
+            mds.append(vdc.VDSMetadata(p, n))
+        contigs = self.CONTIGS38
+        self.rg = self.ReferenceGenome('GRCh38', contigs, dict(zip(contigs, [1] * 25)), _builtin=True)
+        comb = vdc.VariantDatasetCombiner(
+            save_path='/plans/plan.json', output_path=FakeVDS.output_path, temp_path='/tmp/t', reference_genome=self.rg,
+            dataset_type=vdc.CombinerOutType(FakeTM('ref'), FakeTM('var')), branch_factor=c['bf'], gvcf_batch_size=c['batch'],
+            call_fields=['PGT'], vdses=mds, gvcfs=[f'g{i}' for i in range(g)], gvcf_sample_names=names,
+            gvcf_external_header='hdr' if names is not None else None, gvcf_import_intervals=[])
+        self.trace, self.trace_lines = [], ['ok', self._dump(comb)]
+        res = {'problem': None, 'faulted': 0}
+        rec.fault_kind = c.get('fault_kind', 'exc')
+        for k in list(c['faults']) + [0]:
+            rec.ops, rec.fault_at = 0, k
+            self.trace_active = True
+            try:
+                comb.run()
+                break
+            except (InjectedFault, InjectedInterrupt):
+                res['faulted'] += 1
+            except HarnessAbort:
+                res['problem'] = f'run() issued more than 5000 engine calls without finishing (plan: {self._dump(comb)})'
+                break
+            finally:
+                self.trace_active = False
+            # the user restarts from the saved plan
+            rec.fault_at = 0
+            try:
+                comb = vdc.VariantDatasetCombiner.load('/plans/plan.json')
+            except Exception as e:  # noqa: BLE001
+                res['problem'] = f'the saved plan cannot be loaded after a failure inside a step: {type(e).__name__}: {e}'
+                break
+            self.trace.append('reload')
+            self.trace_lines.append(self._dump(comb))
+        res.update(trace=list(self.trace), lines=list(self.trace_lines), finals=list(rec.finals), errors=list(rec.errors),
+                   finished=comb.finished, last=self._dump(comb), merges=list(rec.gvcf_merges))
+        if len(self.crash_cache) > 50000:
+            self.crash_cache.clear()
+        self.crash_cache[key] = res
+        return res
+
+    def _oracle_crash(self, c):
+        r = self._run_crash(c)
+        if r['problem']:
+            return r['problem']
+        if r['errors']:
+            return r['errors'][0]
+        if not r['finished']:
+            return f'run() returned but the plan is not finished: {r["last"]}'
+        inputs = sorted([f'g{i}' for i in range(c['g'])] + [f'v{1000 + i}' for i in range(len(c['vds']))])
+        what = f'after {r["faulted"]} failure(s) inside steps (engine calls {c["faults"][:r["faulted"]]}), each followed by a resume from the saved plan'
+        if len(r['finals']) != 1:
+            return f'{len(r["finals"])} datasets written to the output path {what}, expected exactly one'
+        leaves, n = r['finals'][0]
+        if sorted(leaves) != inputs:
+            missing = sorted(set(inputs) - set(leaves))
+            dup = sorted({x for x in leaves if leaves.count(x) > 1})
+            return f'{what} the final dataset is built from {len(leaves)} of {len(inputs)} inputs: missing {missing[:6]}, used more than once {dup[:6]}'
+        if n != c['g'] + sum(c['vds']):
+            return f'{what} the final dataset has {n} samples, the inputs have {c["g"] + sum(c["vds"])}'
+        if c['names']:
+            for paths, ids in r['merges']:
+                if ids != ['n' + p[1:] for p in paths]:
+                    return f'GVCFs {paths[:4]}… merged under sample names {ids[:4]}…'
+        return None
+
     def impl(self, c):
         if c['kind'] == 'part':
             return self._impl_part(c)
+        if c['kind'] == 'crash':
+            return self._run_crash(c)['lines']
         return self._run_plan(c)[0]
 
     def _oracle_plan(self, c):
@@ -693,7 +838,7 @@ class C38(Prop):
     def oracle(self, c, out):
         if out and out[0].startswith('IMPL-EXC'):
             return out[0]
-        return self._oracle_part(c) if c['kind'] == 'part' else self._oracle_plan(c)
+        return self._oracle_part(c) if c['kind'] == 'part' else self._oracle_crash(c) if c['kind'] == 'crash' else self._oracle_plan(c)
 
     def classify(self, c, out):
         if c['kind'] == 'part':
@@ -701,6 +846,11 @@ class C38(Prop):
             tags = ['part ' + ('err' if out and out[0] == 'err' else f'max-intervals-per-contig={min(k, 5)}{"+" if k >= 5 else ""}'),
                     'part size=' + ('0' if c['size'] == 0 else '1' if c['size'] == 1 else '<100' if c['size'] < 100 else '>=100')]
             return (json.dumps(c, sort_keys=True) if k >= 2 else None, tags)
+        if c['kind'] == 'crash':
+            r = self._run_crash(c)
+            tags = [f'crash failures-hit={r["faulted"]}', 'crash ' + ('Ctrl-C' if c.get('fault_kind') == 'int' else 'exception'),
+                    f'crash steps={min(r["trace"].count("step"), 6)}{"+" if r["trace"].count("step") >= 6 else ""}']
+            return (json.dumps(c, sort_keys=True) if r['faulted'] >= 1 and r['trace'].count('step') >= 2 else None, tags)
         if out and len(out) > 1 and out[1] == 'err':
             return (None, ['plan refused'])
         merges = 0
@@ -722,12 +872,6 @@ class C38(Prop):
         return (json.dumps(c, sort_keys=True) if merges >= 3 else None, tags)
 
     def finding_key(self, c, msg):
-        # the open finding: the public setter applied while the combiner holds more than 150000 import intervals (no reload before it,
-        # which would drop the stand-in length) leaves batch size 0 and the run makes no progress
-        if c.get('kind') == 'plan' and msg.startswith('not finished after') and c.get('nintervals', 0) > 150000 and c.get('g', 0) > 0:
-            for (at, v) in c.get('setter', []):
-                if v >= 1 and at < len(c['resume']) and not any(c['resume'][:at + 1]):
-                    return SETTER_FINDING
         return json.dumps(c, sort_keys=True)
 
     def shrink(self, c, fails):
@@ -737,6 +881,25 @@ class C38(Prop):
                 cand = dict(cur, lengths=cur['lengths'][:i] + [1] + cur['lengths'][i + 1:])
                 if cand != cur and fails(cand):
                     cur = cand
+            return cur
+        if c['kind'] == 'crash':
+            changed = True
+            while changed:
+                changed = False
+                cands = []
+                for i in range(len(cur['faults'])):
+                    cands.append(dict(cur, faults=cur['faults'][:i] + cur['faults'][i + 1:]))
+                if cur['g'] > 0:
+                    cands += [dict(cur, g=cur['g'] - 1), dict(cur, g=cur['g'] // 2)]
+                for i in range(len(cur['vds'])):
+                    cands.append(dict(cur, vds=cur['vds'][:i] + cur['vds'][i + 1:]))
+                if cur['names']:
+                    cands.append(dict(cur, names=0))
+                for cand in cands:
+                    if cand != cur and cand['faults'] and cand['g'] + len(cand['vds']) > 0 and fails(cand):
+                        cur = cand
+                        changed = True
+                        break
             return cur
         changed = True
         while changed:
